@@ -5,6 +5,21 @@ HERE = os.path.dirname(os.path.dirname(os.path.abspath(__file__)))
 
 # id -> (technique, level text, level note, design ref)
 CHECKS = {
+ "C01": (
+  "hypothesis-generated instances + exhaustive enumeration of all states per instance; exact transition-kernel extraction (.py_func with random_choice / np.random.rand replaced) checked for lumped detailed balance against an independent reference posterior; recorder-based history check of the sampler orchestration",
+  "Exploration: for each generated instance every unordered genotype is enumerated and the exact move distribution of every state is extracted for the mutation sub-step at every SNV, recombination and dosage moves on every interval (incl. full length) and the temperature exchange; row sums, lumped detailed balance w.r.t. (L x P)^T from the reference model, independence of haplotype order, successor-likelihood identities; plus _denovo_assembler histories with recorded move arguments (temperature per chain, carried llk, adjacent-temperature swaps, trace llk).",
+  "Python bodies of the jitted functions are taken to have the compiled semantics for float64/int64 inputs; state spaces capped (quick 120, thorough 600 genotypes; ploidy<=5); mixing/convergence is not claimed.",
+  "DESIGN.md §4 C01"),
+ "C02": (
+  "hypothesis-generated instances + exhaustive enumeration of (state, position); Gibbs vector vs exact full conditional, MH lumped detailed balance, exact composition of compound_step over all orders/paths (pi K = pi); differential against call-exact's posterior",
+  "Exploration: every sorted genotype and allele position of each generated instance: the probability vector filled by gibbs_options equals the exact conditional of the reference posterior, mh_options rows are distributions satisfying detailed balance for the same target, and for tiny instances the whole compound step (all visiting orders and choice paths, np.random.shuffle/random_choice replaced) is composed exactly and checked for stationarity and sorted output; genotype_posteriors (call-exact) agrees with the same reference.",
+  "Reference posterior in vf/ref; strictly positive frequencies (call strips zero-frequency alleles); state space capped at 150/500 genotypes.",
+  "DESIGN.md §4 C02"),
+ "C03": (
+  "hypothesis PBT: differential of the streaming and the full-array call-exact paths against an independent exhaustive posterior in VCF order (admissible-set oracle for the mode, stated float32 tolerance)",
+  "Exploration: generated haplotype sets / frequencies (incl. zeros) / ploidies / read sets (incl. none, and deep counts that stress float32): GP and GL entry by entry in VCF order, GT in the arg-max set, GPM, SPM, AFP/ACP/AOP and their sums, zero posterior for zero-prior alleles, and agreement of the two code paths.",
+  "Array path is float32 by design: tolerance expm1(4*2^-23*max|log joint|); mode equality only when the top-two gap exceeds the rounding bound.",
+  "DESIGN.md §4 C03"),
  "C15": (
   "hypothesis PBT: call-recorder on the sweep (.py_func), jitted all-sites-flip witness, partition invariant on random_breaks, differential single-SNV posterior oracle with thresholds drawn on realised values",
   "Exploration: for generated ploidy/locus sizes (incl. >127 SNVs) the multiset of attempted (haplotype,site) pairs must be exactly all pairs once, a jitted witness run must have flipped every cell, random interval sets must partition the range, and the set of SNVs withheld from / restored into the trace must equal the set whose independent single-SNV homozygous posterior reaches the threshold (>=, decided exactly on realised values).",
